@@ -29,6 +29,16 @@ pub enum JoinType {
 
 pub type JoinKeys = SmallVec<[DataValue; 2]>;
 
+/// Normalizes a join key value so that equal SQL values have equal (and equally ordered) keys:
+/// integers of different widths are widened to 64 bits.
+pub fn normalize_join_key(v: DataValue) -> DataValue {
+    match v {
+        DataValue::Int16(x) => DataValue::Int64(x as i64),
+        DataValue::Int32(x) => DataValue::Int64(x as i64),
+        v => v,
+    }
+}
+
 impl<const T: JoinType> HashJoinExecutor<T> {
     #[try_stream(boxed, ok = DataChunk, error = ExecutorError)]
     pub async fn execute(self, left: BoxedExecutor, right: BoxedExecutor) {
@@ -44,7 +54,7 @@ impl<const T: JoinType> HashJoinExecutor<T> {
             let chunk = chunk?;
             let keys_chunk = Evaluator::new(&self.left_keys).eval_list(&chunk)?;
             for (row, keys) in chunk.rows().zip(keys_chunk.rows()) {
-                let keys = keys.values().collect();
+                let keys = keys.values().map(normalize_join_key).collect();
                 hash_map.entry(keys).or_default().rows.push(row.to_owned());
             }
             tokio::task::consume_budget().await;
@@ -59,7 +69,7 @@ impl<const T: JoinType> HashJoinExecutor<T> {
             let chunk = chunk?;
             let keys_chunk = Evaluator::new(&self.right_keys).eval_list(&chunk)?;
             for (right_row, keys) in chunk.rows().zip(keys_chunk.rows()) {
-                let keys = keys.values().collect::<JoinKeys>();
+                let keys = keys.values().map(normalize_join_key).collect::<JoinKeys>();
                 // a NULL key never equals anything, including another NULL
                 let has_null = keys.iter().any(|k| k.is_null());
                 if !has_null && let Some(left_rows) = hash_map.get_mut(&keys) {
@@ -123,7 +133,7 @@ impl HashSemiJoinExecutor {
             let chunk = chunk?;
             let keys_chunk = Evaluator::new(&self.right_keys).eval_list(&chunk)?;
             for row in keys_chunk.rows() {
-                key_set.insert(row.values().collect());
+                key_set.insert(row.values().map(normalize_join_key).collect());
             }
             tokio::task::consume_budget().await;
         }
@@ -135,7 +145,7 @@ impl HashSemiJoinExecutor {
             let exists = keys_chunk
                 .rows()
                 .map(|key| {
-                    let key = key.values().collect::<JoinKeys>();
+                    let key = key.values().map(normalize_join_key).collect::<JoinKeys>();
                     // a NULL key never equals anything, including another NULL
                     let has_null = key.iter().any(|k| k.is_null());
                     (!has_null && key_set.contains(&key)) ^ self.anti
@@ -167,7 +177,7 @@ impl HashSemiJoinExecutor2 {
             let keys_chunk = Evaluator::new(&self.right_keys).eval_list(&chunk)?;
             for (key, row) in keys_chunk.rows().zip(chunk.rows()) {
                 let chunk = key_set
-                    .entry(key.values().collect())
+                    .entry(key.values().map(normalize_join_key).collect())
                     .or_insert_with(|| DataChunkBuilder::unbounded(&self.right_types))
                     .push_row(row.values());
                 assert!(chunk.is_none());
@@ -185,7 +195,7 @@ impl HashSemiJoinExecutor2 {
             let keys_chunk = Evaluator::new(&self.left_keys).eval_list(&chunk)?;
             let mut exists = Vec::with_capacity(chunk.cardinality());
             for (key, lrow) in keys_chunk.rows().zip(chunk.rows()) {
-                let key = key.values().collect::<JoinKeys>();
+                let key = key.values().map(normalize_join_key).collect::<JoinKeys>();
                 // a NULL key never equals anything, including another NULL
                 let has_null = key.iter().any(|k| k.is_null());
                 let b = if !has_null && let Some(rchunk) = key_set.get(&key) {
